@@ -547,7 +547,7 @@ func c01ConfigSpace(tier string) *core.Space {
 		"IgnoreLocalNoUseVars":  {[]string{"x"}, 1},
 		"ProtocolVars":          {[]string{"c2s"}, 1},
 		"ProtocolPreIngoreFlag": {0, 1, "1"},
-		"ReferFrameFiles":       {[]interface{}{map[string]interface{}{"Name": "import", "type": 2, "SuffixFlag": 0}}, []interface{}{map[string]interface{}{"Name": "", "type": 9}}, "x"},
+		"ReferFrameFiles":       {[]interface{}{map[string]interface{}{"Name": "import", "type": 2, "SuffixFlag": 0}}, []interface{}{map[string]interface{}{"Name": "", "type": 9}}, []interface{}{map[string]interface{}{"Name": "imp(ort", "type": 2, "SuffixFlag": 1}}, []interface{}{map[string]interface{}{"Name": "load*+", "type": 1}}, "x"},
 		"PathSeparator":         {".", "/", "", "::", 1},
 		"AnntotateSets":         {[]interface{}{map[string]interface{}{"FuncName": "f", "ParamIndex": 1}}, []interface{}{map[string]interface{}{"FuncName": "f", "ParamIndex": -1, "SplitFlag": 1}}, 1},
 		"OtherDir":              {"", "other", "/nonexistent", 1},
